@@ -253,14 +253,16 @@ fn vf_to_lowercase(s: &str) -> (r: String) ensures r@ == to_lower(s@) { s.to_low
 #[verifier::external_body]
 fn vf_is_ascii(s: &String) -> (r: bool) ensures r == ascii_text(s@) { s.is_ascii() }
 #[verifier::external_body]
-fn vf_idna(s: &String) -> (r: Result<String, NetworkFilterError>)
+fn vf_idna_hostname(s: &str) -> (r: Result<String, NetworkFilterError>)
     ensures match r { Ok(h) => idna_ascii(s@) == Some(h@), Err(e) => idna_ascii(s@) is None && e is PunycodeError }
 { unimplemented!() }
 
 // "'||host' pins the match to the request hostname" — request hostnames are lower-case and punycode, so the rule's host must be
 // brought to the same form: lower-cased, then punycode if it is not ASCII; for `||` rules a leading "www." does not count
 pub open spec fn host_form(host: Seq<char>, hostname_anchor: bool) -> Option<Seq<char>> {
-    let n = to_lower(if hostname_anchor { strip_www(host) } else { host });
+    // hostnames are case-insensitive: lower case first, so that `WWW.` counts as `www.`
+    let l = to_lower(host);
+    let n = if hostname_anchor { strip_www(l) } else { l };
     if ascii_text(n) { Some(n) } else { idna_ascii(n) }
 }
 
@@ -273,38 +275,168 @@ fn vf_normalise_host(host: String, mask: NetworkFilterMask) -> (r: Result<String
 //@EXTRACT src/filters/network.rs :: impl NetworkFilter :: fn parse
 //@ SAFETY C11.parse.hostname_form.safety
 //@ FROM
-                let hostname_normalised = if mask.contains(NetworkFilterMask::IS_HOSTNAME_ANCHOR) {
+                let lowercase = host.to_lowercase();
 //@ ENDFROM
 //@ TO
                 Ok(hostname)
 //@ ENDTO
 //@ SUBST R6
-    host.trim_start_matches("www.")
+    host.to_lowercase()
 //@ WITH
-    vf_trim_www(&host)
+    vf_to_lowercase(vf_as_str(&host))
 //@ ENDSUBST
 //@ SUBST R6
-    &host
+    lowercase.trim_start_matches("www.")
 //@ WITH
-    vf_as_str(&host)
+    vf_trim_www(&lowercase)
 //@ ENDSUBST
 //@ SUBST R6
-    hostname_normalised.to_lowercase()
+    &lowercase
 //@ WITH
-    vf_to_lowercase(hostname_normalised)
+    vf_as_str(&lowercase)
 //@ ENDSUBST
 //@ SUBST R6
-    lowercase.is_ascii()
+    hostname_normalised.is_ascii()
 //@ WITH
-    vf_is_ascii(&lowercase)
+    vf_is_ascii_str(hostname_normalised)
+//@ ENDSUBST
+//@ SUBST R6
+    hostname_normalised.to_owned()
+//@ WITH
+    vf_string_from(hostname_normalised)
 //@ ENDSUBST
 //@ REPLACE R6
-    idna::domain_to_ascii(&lowercase)
+    idna::domain_to_ascii(hostname_normalised)
 //@ UPTO
     .map_err(|_| NetworkFilterError::PunycodeError)?
 //@ WITH
-    vf_idna(&lowercase)?
+    vf_idna_hostname(hostname_normalised)?
 //@ ENDREPLACE
+//@END
+}
+
+// ---- hosts-style entries (NetworkFilter::parse_hosts_style) -------------------------------------------------------------------------
+pub struct HostsRule { pub x: u8 }   // stands for NetworkFilter in this function's result
+pub struct ParseOpts { pub x: u8 }
+impl Default for ParseOpts { #[verifier::external_body] fn default() -> (r: Self) { unimplemented!() } }
+pub enum HostsError { FilterParseError, PunycodeError, Other }
+pub uninterp spec fn rule_of_line(line: Seq<char>, debug: bool) -> Result<HostsRule, HostsError>;
+pub struct NetworkFilter { pub x: u8 }
+impl NetworkFilter {
+    // NetworkFilter::parse itself: units c11_pattern_block (above) / c03_*; here a function of the line
+    #[verifier::external_body]
+    pub fn parse(line: &str, debug: bool, opts: ParseOpts) -> (r: Result<HostsRule, HostsError>) ensures r == rule_of_line(line@, debug) { unimplemented!() }
+}
+pub uninterp spec fn has_invalid_char(s: Seq<char>) -> bool;   // the INVALID_CHARS regex
+#[verifier::external_body]
+fn vf_invalid_chars(s: &str) -> (r: bool) ensures r == has_invalid_char(s@) { unimplemented!() }
+#[verifier::external_body]
+fn vf_trim_www_str(s: &String) -> (r: &str) ensures r@ == strip_www(s@) { unimplemented!() }
+#[verifier::external_body]
+fn vf_is_ascii_str(s: &str) -> (r: bool) ensures r == ascii_text(s@) { unimplemented!() }
+#[verifier::external_body]
+fn vf_idna_str(s: &str) -> (r: Result<String, HostsError>)
+    ensures match r { Ok(h) => idna_ascii(s@) == Some(h@), Err(e) => idna_ascii(s@) is None && e is PunycodeError }
+{ unimplemented!() }
+#[verifier::external_body]
+fn vf_push_str(s: &mut String, t: &str) ensures final(s)@ == old(s)@ + t@ { s.push_str(t) }
+#[verifier::external_body]
+fn vf_push_char(s: &mut String, c: char) ensures final(s)@ == old(s)@.push(c) { s.push(c) }
+
+pub open spec fn has_dot(b: Seq<u8>, from: int) -> bool { exists|j: int| from <= j < b.len() && b[j] == 46u8 }
+// "This shouldn't be used to block an entire TLD, and the hostname shouldn't end with a dot"
+pub open spec fn hosts_entry_ok(host: &str) -> bool {
+    let b = host.spec_bytes();
+    !has_invalid_char(host@) && has_dot(b, 0) && !(b.len() > 0 && b[0] == 46u8 && !has_dot(b, 1)) && !(b.len() > 0 && b[b.len() - 1] == 46u8)
+}
+
+impl HostsRule {
+//@EXTRACT src/filters/network.rs :: impl NetworkFilter :: fn parse_hosts_style
+//@ RET r
+//@ SAFETY C11.parse_hosts.safety
+//@ SPEC
+        ensures
+            // entries that are not plain dotted hostnames are refused
+            !hosts_entry_ok(hostname) ==> r is Err, // OBL C11.parse_hosts.refused
+            // "produces an equivalent filter parsed from the form `||hostname^`": the same normal form as a `||` rule's host (lower case, no leading
+            // "www.", punycode) between `||` and `^`
+            hosts_entry_ok(hostname) ==> (match host_form(hostname@, true) {
+                Some(h) => r == rule_of_line((seq!['|', '|'] + h).push('^'), debug),
+                None => r is Err,
+            }), // OBL C11.parse_hosts.same_as_double_pipe_rule
+//@ ENDSPEC
+//@ SUBST R1
+    Result<Self, NetworkFilterError>
+//@ WITH
+    Result<HostsRule, HostsError>
+//@ ENDSUBST
+//@ SUBST R1*
+    NetworkFilterError::FilterParseError
+//@ WITH
+    HostsError::FilterParseError
+//@ ENDSUBST
+//@ SUBST R9
+    static INVALID_CHARS: Lazy<Regex> =
+            Lazy::new(|| Regex::new("[/^*!?$&(){}\\[\\]+=~`\\s|@,'\"><:;]").unwrap());
+//@ WITH
+//@ ENDSUBST
+//@ SUBST R9
+    INVALID_CHARS.is_match(hostname)
+//@ WITH
+    vf_invalid_chars(hostname)
+//@ ENDSUBST
+//@ SUBST R6
+    hostname.to_lowercase()
+//@ WITH
+    vf_to_lowercase(hostname)
+//@ ENDSUBST
+//@ SUBST R6
+    normalized_host.trim_start_matches("www.")
+//@ WITH
+    vf_trim_www_str(&normalized_host)
+//@ ENDSUBST
+//@ SUBST R6
+    "||".to_string()
+//@ WITH
+    vf_string_from("||")
+//@ ENDSUBST
+//@ SUBST R6
+    normalized_host.is_ascii()
+//@ WITH
+    vf_is_ascii_str(normalized_host)
+//@ ENDSUBST
+//@ SUBST R6
+    hostname.push_str(normalized_host);
+//@ WITH
+    vf_push_str(&mut hostname, normalized_host);
+//@ ENDSUBST
+//@ REPLACE R6
+    hostname.push_str(
+                &idna::domain_to_ascii(normalized_host)
+//@ UPTO
+    .map_err(|_| NetworkFilterError::PunycodeError)?,
+            );
+//@ WITH
+    vf_push_str(&mut hostname, vf_idna_str(normalized_host)?.as_str());
+//@ ENDREPLACE
+//@ SUBST R6
+    hostname.push('^');
+//@ WITH
+    vf_push_char(&mut hostname, '^');
+//@ ENDSUBST
+//@ BEFORE
+    NetworkFilter::parse(&hostname, debug, Default::default())
+//@ AT
+    proof { reveal_strlit("||"); assert("||"@ =~= seq!['|', '|']); }
+//@ ENDBEFORE
+//@ BEFORE#2
+    return Err(NetworkFilterError::FilterParseError);
+//@ AT
+            proof {
+                let b = hostname.spec_bytes();
+                if b.len() > 0 && has_dot(b, 1) { let j = choose|j: int| 1 <= j < b.len() && b[j] == 46u8; assert(b.subrange(1, b.len() as int)[j - 1] == 46u8); }
+            }
+//@ ENDBEFORE
 //@END
 }
 
